@@ -213,6 +213,19 @@ def run(tier, seed, t0):
     allc = cases(tier)
     core.check_deterministic(judge, allc[3])
     st = core.pmap(_work, core.chunks(allc, 25))
+    # single-process history sweeps: the helpers are called on all MSM / 4076_201 cases again in
+    # one process in three orders (GLONASS first, reversed, interleaved), so that state kept by a
+    # helper between calls meets a message of another family
+    seq = [c for c in allc if c["kind"] in ("msm", "harm")]
+    small = [c for c in seq if c["kind"] == "harm" or R.popcount(c["shape"]["DF396"]) <= 6]
+    glo_first = sorted(small, key=lambda c: (0 if c.get("id", "")[:3] == "108" else 1))
+    inter = [c for pair in zip(small, reversed(small)) for c in pair]
+    nseq = 0
+    for order in (glo_first, list(reversed(small)), inter):
+        for c in order:
+            st.add(c, judge(c))
+            nseq += 1
+    st.extra["single_process_history_sweep_cases"] = nseq
     for k in ("msm", "harm", "other"):
         st.extra[f"cases_{k}"] = sum(1 for c in allc if c["kind"] == k)
     return core.finish(
